@@ -11,9 +11,10 @@ UNITS = [
          kind="bounded", bound="exactly 3 tracked trains (loop unwound completely for that size); arbitrary query result per train",
          remove_bodies=[f for f in _st if f != "bidib_state_update_train_available"], extra_flags=["--nondet-static", "--unwind", "5"], covers=1, min_obligations=8,
          stubbed_contracts=["bidib_get_train_position_intern", "bidib_free_train_position_query"]),
-    Unit(name="C07.state_reset", src="units/C07/state_reset.c", functions=["bidib_state_reset", "bidib_booster_normal_to_simple"], props=["C07", "C20"], no_dfcc=True, kind="bounded",
+    Unit(name="C07.state_reset", src="units/C07/state_reset.c", functions=["bidib_state_reset", "bidib_booster_normal_to_simple"], props=["C07", "C20", "C16"], no_dfcc=True, kind="bounded",
          bound="2 tracked entities of every kind with arbitrary previous content (segments with 0..2 addresses, trains with 0..2 functions); loops unwound completely",
-         remove_bodies=[f for f in _st if f not in ("bidib_state_reset", "bidib_booster_normal_to_simple")], extra_flags=["--nondet-static", "--unwind", "8", "--unwindset", "vp_bytes.0:8"], covers=2, min_obligations=10, timeout=300),
+         remove_bodies=[f for f in _st if f not in ("bidib_state_reset", "bidib_booster_normal_to_simple")], extra_flags=["--nondet-static", "--unwind", "8", "--unwindset", "vp_bytes.0:8", "--memory-leak-check"], covers=2, min_obligations=10, timeout=300,
+         note="CBMC --memory-leak-check: the aspect ids held before the reset are released"),
     Unit(name="C08.train_position", src="units/C07/train_position.c", functions=["bidib_get_train_position_intern"], props=["C08"], no_dfcc=True,
          kind="bounded", bound="2 segments with 0..2 listed decoder addresses each (arbitrary content); loops unwound completely (3 segments did not finish in 300 s)",
          remove_bodies=[f.name for f in _t.by_file[csrc.REPO + "/src/highlevel/bidib_highlevel_getter.c"] if f.name != "bidib_get_train_position_intern"],
